@@ -176,3 +176,39 @@ Proof.
   intros HL H ep. apply aq_conservation. intros c Hc. destruct (H c Hc) as [Hq [j [Hj Hin]]].
   apply (code_table_covers L quarters f e om (cperiod c) j HL Hq Hj Hin).
 Qed.
+
+(* ------------------------------------------------------------------ non-continuous issuance (F18, finer cut) *)
+(* all premium written in the first month of the policy year: the earning months of policy year s are s .. s+L.
+   If policies last at least 11 months these windows tile the calendar, so every quarter is covered as well;
+   for shorter policies the months s+L+1 .. s+11 earn nothing (F18: C18_aq_to_py_code_table_refuted, L = 6). *)
+Lemma total_share_pos_noncontinuous L quarters starts q s j :
+  (11 <= L)%Z -> In q quarters -> In s starts -> (s <= j <= s + 11)%Z -> in_period q (month_start j) = true ->
+  0 < total_share (code_share_table false L quarters starts) q.
+Proof.
+  intros HL Hq Hs Hj Hin. unfold total_share, code_share_table. rewrite map_map.
+  apply (qsum_pos_member _ _ s).
+  - intros s' _. apply raw_or_0_nonneg; [lia|assumption].
+  - exact Hs.
+  - unfold raw_or_0. rewrite (passoc_py_table false L quarters s q Hq).
+    destruct (quarter_raw_pos s s L q j ltac:(lia) ltac:(lia) ltac:(lia) Hin) as [x [Ex Px]].
+    rewrite Ex. exact Px.
+Qed.
+Theorem code_table_covers_noncontinuous L quarters f e om q j :
+  (11 <= L)%Z -> In q quarters -> (f <= j <= e)%Z -> in_period q (month_start j) = true ->
+  ~ total_share (code_share_table false L quarters (py_start_ids (py_first_start f om) e)) q == 0.
+Proof.
+  intros HL Hq Hj Hin.
+  destruct (py_start_covers (py_first_start f om) e j) as [s [Hs Hsj]].
+  { pose proof (py_first_start_le f om). lia. }
+  pose proof (total_share_pos_noncontinuous L quarters _ q s j HL Hq Hs Hsj Hin). lra.
+Qed.
+Theorem aq_conservation_noncontinuous L quarters f e om cells evd fld k :
+  (11 <= L)%Z ->
+  (forall c, In c (cells_at evd cells) ->
+     In (cperiod c) quarters /\ exists j, (f <= j <= e)%Z /\ in_period (cperiod c) (month_start j) = true) ->
+  let ep := code_share_table false L quarters (py_start_ids (py_first_start f om) e) in
+  out_amount ep cells evd fld k == in_amount cells evd fld k.
+Proof.
+  intros HL H ep. apply aq_conservation. intros c Hc. destruct (H c Hc) as [Hq [j [Hj Hin]]].
+  apply (code_table_covers_noncontinuous L quarters f e om (cperiod c) j HL Hq Hj Hin).
+Qed.
